@@ -187,7 +187,7 @@ def run(ctx) -> None:
     formulation_failed = len(ctx.findings) > n_before or bool(ctx.deferred)
     fa.check_orientation(ctx, "C17.orient", [("cobra.flux_analysis.loopless", "loopless_solution")], formulation_rule={"loopless_solution": "C17.formulation"})
     check_reported_objective(ctx)
-    fa.check_cycle_free(ctx, "C17.cyclefree")
+    ctx.guard(fa.check_cycle_free, ctx, "C17.cyclefree")
     fa.check_capture(ctx, "C17.capture", [("cobra.flux_analysis.loopless", "loopless_solution")])
     # the structural reading of add_loopless explains, the evaluated formulation clause decides: a structural report
     # is issued only when the formulation is found wrong as well (or could not be evaluated)
